@@ -228,7 +228,7 @@ public:
         if (auto* E = dyn_cast<MaterializeTemporaryExpr>(S)) return tree(E->getSubExpr(), depth);
         if (auto* E = dyn_cast<CXXBindTemporaryExpr>(S)) return tree(E->getSubExpr(), depth);
         if (auto* E = dyn_cast<ConstantExpr>(S)) return tree(E->getSubExpr(), depth);
-        if (auto* E = dyn_cast<CXXDefaultArgExpr>(S)) return tree(E->getExpr(), depth);
+        if (auto* E = dyn_cast<CXXDefaultArgExpr>(S)) { pendingDefArg = true; return tree(E->getExpr(), depth); }
         if (auto* E = dyn_cast<CXXDefaultInitExpr>(S)) return tree(E->getExpr(), depth);
         if (auto* E = dyn_cast<SubstNonTypeTemplateParmExpr>(S)) return tree(E->getReplacement(), depth);
         if (auto* E = dyn_cast<ImplicitCastExpr>(S)) {
@@ -254,7 +254,18 @@ public:
         }
 
         J.object([&] {
+            if (pendingDefArg) { J.attribute("defarg", 1); pendingDefArg = false; }
             if (auto* E = dyn_cast<Expr>(S)) {
+                if (isa<CXXScalarValueInitExpr>(E) || isa<ImplicitValueInitExpr>(E)) {
+                    if (E->getType()->isPointerType() || E->getType()->isNullPtrType()) {
+                        J.attribute("k", "null");
+                    } else {
+                        J.attribute("k", "int");
+                        J.attribute("cv", 0);
+                        J.attribute("t", canonStr(E->getType()));
+                    }
+                    return;
+                }
                 // literals
                 if (auto* L = dyn_cast<IntegerLiteral>(E)) {
                     J.attribute("k", "int");
@@ -586,6 +597,30 @@ public:
         });
     }
 
+    // is the value of expression E consumed by an enclosing expression?
+    bool valueUsed(const Expr* E) {
+        const Stmt* cur = E;
+        for (int guard = 0; guard < 6; guard++) {
+            auto parents = C.AC->getParents(*cur);
+            if (parents.empty()) return false;
+            const Stmt* P = parents[0].get<Stmt>();
+            if (!P) return parents[0].get<Decl>() != nullptr;   // initialiser of a declaration
+            if (isa<ParenExpr>(P) || isa<ExprWithCleanups>(P)) { cur = P; continue; }
+            if (auto* F = dyn_cast<ForStmt>(P)) return F->getCond() == cur;
+            if (isa<CompoundStmt>(P)) return false;
+            if (auto* I = dyn_cast<IfStmt>(P)) return I->getCond() == cur;
+            if (auto* W = dyn_cast<WhileStmt>(P)) return W->getCond() == cur;
+            if (isa<Expr>(P)) {
+                if (auto* B = dyn_cast<BinaryOperator>(P))
+                    if (B->getOpcode() == BO_Comma && B->getLHS() == cur) return false;
+                return true;
+            }
+            return !isa<CaseStmt>(P) && !isa<DefaultStmt>(P) && !isa<LabelStmt>(P) && !isa<DoStmt>(P) &&
+                   !isa<CXXForRangeStmt>(P);
+        }
+        return true;
+    }
+
     // access kind of an lvalue expression, from its parent context
     const char* accessKind(const Expr* E) {
         const Stmt* cur = E;
@@ -607,11 +642,11 @@ public:
             }
             if (auto* B = dyn_cast<BinaryOperator>(P)) {
                 if (B->isAssignmentOp() && B->getLHS()->IgnoreParens() == cur)
-                    return B->getOpcode() == BO_Assign ? "w" : "rw";
+                    return B->getOpcode() == BO_Assign ? "w" : (valueUsed(B) ? "rwu" : "rw");
                 return "ref";
             }
             if (auto* U = dyn_cast<UnaryOperator>(P)) {
-                if (U->isIncrementDecrementOp()) return "rw";
+                if (U->isIncrementDecrementOp()) return valueUsed(U) ? "rwu" : "rw";
                 if (U->getOpcode() == UO_AddrOf) return "addr";
                 return "ref";
             }
@@ -890,8 +925,11 @@ public:
         J.object([&] {
             J.attribute("key", funcKey(FD));
             J.attribute("name", qualName(FD));
-            J.attribute("file", rel(fileOf(FD->getLocation())));
-            J.attribute("line", lineOf(FD->getLocation()));
+            {
+                SourceLocation L = FD->getBody() ? FD->getBody()->getBeginLoc() : FD->getLocation();
+                J.attribute("file", rel(fileOf(L)));
+                J.attribute("line", lineOf(L));
+            }
             J.attribute("endline", lineOf(FD->getEndLoc()));
             J.attribute("ret", typeStr(FD->getReturnType()));
             J.attributeArray("params", [&] {
@@ -1080,6 +1118,7 @@ public:
 private:
     Ctx& C;
     OStream& J;
+    bool pendingDefArg = false;
     std::map<const FunctionDecl*, std::string> keyCache;
     std::map<const VarDecl*, int> varIds;
     std::set<std::string> emitted;
